@@ -197,7 +197,7 @@ PROPS["C20"] = dict(
                desc="forall message type, forall payload length (full u32): encode(new(..)) begins with COPA, bytes 4..8 == LE(length), byte 8 == type code, byte 9 == 1, flags 0 — on the compiled library")],
     twins=[dict(name="cli_chain", repo_fn="src/bin/copia/main.rs run_signature/run_delta/run_patch", quick=1, thorough=1, needs_cli=True,
                 contract="the real `copia` binary: signature -> delta -> patch through files reproduces the source; every single-field corruption of the .sig/.delta file ends in a reported error (never a crash), and exit 0 only with bytes matching the checksum")],
-    fallback_searches=["cli"],
+    fallback_searches=["codec", "cli"],
     clauses={
         "MessageType::from_u8": "Ok <=> 1..=7, and the decoded variant has that code",
         "FrameHeader::validate": "Ok <=> magic == COPA && version == 1 && length <= 16 MiB",
